@@ -130,6 +130,22 @@ def _same(a, b):
     return a is b or (a is not None and b is not None and a.eq(b))
 
 
+def _mentions_array(e, seen=None):
+    seen = set() if seen is None else seen
+    todo = [e]
+    while todo:
+        x = todo.pop()
+        if x.get_id() in seen:
+            continue
+        seen.add(x.get_id())
+        if z3.is_quantifier(x) or z3.is_array(x) or (z3.is_app(x) and x.decl().kind() == z3.Z3_OP_UNINTERPRETED
+                                                     and x.num_args() > 0):
+            return True
+        if z3.is_app(x):
+            todo.extend(x.children())
+    return False
+
+
 def merge_states(states):
     states = [s for s in states if s is not None]
     if not states:
@@ -315,6 +331,10 @@ class Exec:
         self._fresh = itertools.count()
         self._globals_addr = {}
         self._glob_syms = []
+        self._glob_symnames = set()
+        self._alias_cache = {}
+        self._outside_stores = {}
+        self.alias_stats = {'proved': 0, 'open': 0}
         self.stack_syms = []
         self.calls = []                # names of callee contracts used
         self.trusted_used = set()
@@ -414,14 +434,130 @@ class Exec:
         base, reckey, off, ft = self.norm_field(ptr, t.name, fname)
         self.store(st, Loc('field', ft, base, reckey, off), val)
 
+    # -- reads of this frame's stack locals through the byte heap ------------------------------------
+    # A local whose address is taken lives in the byte heap, so `cd` after `size = ...` is a select through
+    # a chain of byte stores (and ite-merged chains).  The reader below resolves such a select syntactically
+    # when both the read and the store address are `stack base + constant` inside the declared extent of
+    # this frame's locals: same base -> hit or skip by offset; different bases -> skip, because finish_hyps()
+    # states that the frame's locals are pairwise disjoint and do not wrap.  The result is equal to the plain
+    # select under those hypotheses (which every obligation carries); anything else is left as a select.
+    def _stack_split(self, a):
+        off = 0
+        while z3.is_app(a) and a.decl().kind() == z3.Z3_OP_BADD and a.num_args() == 2:
+            x, y = a.arg(0), a.arg(1)
+            if z3.is_bv_value(y):
+                a, off = x, off + y.as_long()
+            elif z3.is_bv_value(x):
+                a, off = y, off + x.as_long()
+            else:
+                return None
+        off &= (1 << 64) - 1
+        for idx, (sa, size) in enumerate(self.stack_syms):
+            if sa.eq(a):
+                return (sa.get_id(), off, idx) if off < size else None
+        return None
+
+    # A store (or read) through a pointer that is not syntactically a local: the generator asks z3, once per
+    # address term, whether the frame hypotheses and the function's precondition alone (no path facts, so the
+    # answer holds on every path) put the accessed bytes outside every local of this frame declared so far.
+    # A proved answer lets reads of those locals skip that store (and lets such a read skip stores into
+    # locals); no answer within the resource limit changes nothing (the plain select/store is emitted).
+    ALIAS_RLIMIT = 40000000
+
+    def _outside_frame(self, addr, nbytes):
+        """number of leading entries of stack_syms the bytes [addr, addr+nbytes) are proved disjoint from"""
+        pre = getattr(self, 'pre_pc', None)
+        if pre is None or not self.stack_syms or nbytes <= 0 or nbytes > 64:
+            return 0
+        nsyms = len(self.stack_syms)
+        addr = z3.simplify(addr)           # one query for all spellings of an address
+        key = (addr.get_id(), nbytes)
+        hit = self._alias_cache.get(key)
+        if hit is not None and (hit[0] >= nsyms or not hit[1]):
+            return hit[0] if hit[1] else 0
+        # hypotheses: the frame layout and the precondition (the facts about literals and globals are left out:
+        # fewer hypotheses, still sound)
+        s = z3.Solver()
+        s.set('rlimit', self.ALIAS_RLIMIT)
+        s.set('timeout', 20000)
+        for h in self.finish_hyps(frame_only=True) + list(pre):
+            s.add(h)
+        end = addr + BV(nbytes, 64)
+        apart = [z3.ULE(addr, end)]
+        for sa, size in self.stack_syms:
+            apart.append(z3.Or(z3.ULE(end, sa), z3.UGE(addr, sa + BV((size + 15) // 16 * 16, 64))))
+        ok = True
+        for a in apart:                   # one local at a time: each query is small
+            s.push()
+            s.add(z3.Not(a))
+            ok = s.check() == z3.unsat
+            s.pop()
+            if not ok:
+                break
+        self._alias_cache[key] = (nsyms, ok, addr)
+        self.alias_stats['proved' if ok else 'open'] += 1
+        return nsyms if ok else 0
+
+    def _read_byte(self, arr, addr, sp, memo):
+        key = arr.get_id()
+        if key in memo:
+            return memo[key]
+        a0 = arr
+        while True:
+            k = arr.decl().kind() if z3.is_app(arr) else None
+            if k == z3.Z3_OP_STORE:
+                if self._outside_stores.get(arr.get_id(), (0,))[0] > sp[2]:
+                    arr = arr.arg(0)       # a store proved to lie outside this frame's locals
+                    continue
+                sp2 = self._stack_split(arr.arg(1))
+                if sp2 is not None:
+                    if sp2[0] == sp[0] and sp2[1] == sp[1]:
+                        r = arr.arg(2)
+                        break
+                    arr = arr.arg(0)       # same local, other byte; or another local of this frame
+                    continue
+            elif k == z3.Z3_OP_ITE:
+                r1 = self._read_byte(arr.arg(1), addr, sp, memo)
+                r2 = self._read_byte(arr.arg(2), addr, sp, memo)
+                r = r1 if r1.eq(r2) else z3.If(arr.arg(0), r1, r2)
+                break
+            r = z3.Select(arr, addr)
+            break
+        memo[key] = memo[a0.get_id()] = r
+        return r
+
     def load_raw(self, st, addr, nbytes):
-        bs = [z3.Select(st.raw, addr + BV(k, 64)) if k else z3.Select(st.raw, addr) for k in range(nbytes)]
+        bs = []
+        for k in range(nbytes):
+            a = addr + BV(k, 64) if k else addr
+            sp = self._stack_split(a)
+            if sp is not None:
+                bs.append(self._read_byte(st.raw, a, sp, {}))
+                continue
+            arr = st.raw
+            if z3.is_app(arr) and arr.decl().kind() == z3.Z3_OP_STORE and self._stack_split(arr.arg(1)) is not None \
+                    and self._outside_frame(addr, nbytes) >= len(self.stack_syms):
+                while z3.is_app(arr) and arr.decl().kind() == z3.Z3_OP_STORE and self._stack_split(arr.arg(1)) is not None:
+                    arr = arr.arg(0)
+            bs.append(z3.Select(arr, a))
+        if nbytes > 1:
+            # the bytes of one stored value, in order: the value itself
+            v0 = bs[0]
+            if z3.is_app(v0) and v0.decl().kind() == z3.Z3_OP_EXTRACT and v0.arg(0).size() == 8 * nbytes:
+                whole = v0.arg(0)
+                if all(z3.is_app(b) and b.decl().kind() == z3.Z3_OP_EXTRACT and b.arg(0).eq(whole)
+                       and b.params() == [8 * k + 7, 8 * k] for k, b in enumerate(bs)):
+                    return whole
         return z3.Concat(*reversed(bs)) if nbytes > 1 else bs[0]
 
     def store_raw(self, st, addr, val, nbytes):
         r = st.raw
+        covered = 0 if self._stack_split(addr) is not None else self._outside_frame(addr, nbytes)
         for k in range(nbytes):
             r = z3.Store(r, addr + BV(k, 64) if k else addr, z3.Extract(8 * k + 7, 8 * k, val))
+            if covered:
+                # (the term is kept referenced: z3 reuses the ids of freed terms)
+                self._outside_stores[r.get_id()] = (max(covered, self._outside_stores.get(r.get_id(), (0,))[0]), r)
         st.raw = r
 
     def load(self, st, loc):
@@ -509,7 +645,12 @@ class Exec:
 
     def global_addr(self, name):
         if name not in self._globals_addr:
-            a = z3.BitVec('&' + name, 64)
+            # SMT-LIB quoted symbols may hold neither '|' nor '\\' (cvc5 rejects z3's escaping of them)
+            sym = '&' + name.replace('\\', '!bsl!').replace('|', '!bar!')
+            while sym != '&' + name and sym in self._glob_symnames:
+                sym += "'"
+            self._glob_symnames.add(sym)
+            a = z3.BitVec(sym, 64)
             self._globals_addr[name] = a
             self._glob_syms.append(a)
         return self._globals_addr[name]
@@ -539,7 +680,7 @@ class Exec:
         self.stack_syms.append((a, max(t.size, 1)))
         return a
 
-    def finish_hyps(self):
+    def finish_hyps(self, frame_only=False):
         hy = []
         prev_end = BV(USER_LO, 64)
         # this frame's stack locals: pairwise disjoint (fixed order), no wrap, and disjoint
@@ -556,6 +697,8 @@ class Exec:
                                 z3.ULE(r, BV(STACK_HI, 64)), z3.ULE(r + n, BV(STACK_HI, 64)))
                 hy.append(z3.Implies(mapped, z3.Or(z3.UGE(a, r + n), z3.ULE(end, r))))
             prev_end = end
+        if frame_only:
+            return hy
         hy += self.literal_hyps
         # globals / literals / exception-class constants: distinct objects 4 KiB apart (fixed order),
         # disjoint from this frame's stack locals
@@ -671,6 +814,7 @@ class Exec:
                 self.ob('loop-exit', line, label, xst, g, hyps_extra=extra or ())
             st.assume(cv)
         self.pre_pc = list(st.pc)
+        self.restate_pre(st, c0)
         self.base_witness = dict(self.contract.witness(c0))
         acc = self.contract.accessible(c0)
         if acc is not None:
@@ -751,6 +895,7 @@ class Exec:
             st.assume(p)
         self.collecting_regions = False
         self.pre_pc = list(st.pc)
+        self.restate_pre(st, c0)
         # the initial heaps may have been extended by pre(); share them
         for k, h in self.st0.fh.items():
             st.fh.setdefault(k, h)
@@ -773,6 +918,24 @@ class Exec:
         for o in self.obs:
             o.hyps = list(self.global_hyps) + o.hyps
         return self.obs
+
+    def restate_pre(self, st, c0):
+        """The precondition was built before it could be used to resolve reads (see _outside_frame), so its
+        reads of memory are plain selects through the stores that spill the address-taken locals, while the
+        same reads made by the code afterwards are resolved.  State it a second time, now resolved: each
+        restated conjunct P' is P with sub-terms replaced by terms equal to them under hyps /\\ P, so
+        hyps /\\ P |- P' and assuming it as well adds nothing (P itself stays assumed)."""
+        if not self.stack_syms:
+            return
+        seen = {p.get_id() for p in st.pc}
+        again = [p for _l, p, extra in _norm(self.contract.pre(c0)) if extra != 'callers']
+        if getattr(self.contract, 'loop_ordinal', None) is None:
+            again += [p for _l, p in self.contract.scope(c0)]
+        for p in again:
+            if p.get_id() not in seen:
+                seen.add(p.get_id())
+                st.assume(p)
+                self.pre_pc.append(p)
 
     def check_frame(self, c, rst, rline):
         fr = self.contract.frame(c)
@@ -1757,7 +1920,7 @@ class Exec:
         fd = self.tu.functions[name]
         sub = Exec(self.tu, self.reg, name, Contract())
         sub.__dict__.update({k: v for k, v in self.__dict__.items()
-                             if k in ('obs', 'global_hyps', '_fresh', '_globals_addr', '_glob_syms', 'stack_syms',
+                             if k in ('obs', 'global_hyps', '_fresh', '_globals_addr', '_glob_syms', '_glob_symnames', 'stack_syms', '_alias_cache', '_outside_stores', 'alias_stats', 'pre_pc',
                                       'init_heaps', 'init_ghost', 'raw0', 'err0', 'base_witness', '_names',
                                       'calls', 'trusted_used', 'st0', 'args', 'prune', 'declared_regions',
                                       'fresh_regions', 'access_regions', 'cur_line', 'literals', 'literal_hyps')})
